@@ -34,6 +34,13 @@ def run(chk):
                 ('str', "b'x"), ('str', "b'"), ('str', "h'ab'"), ('str', 'bb'), ('ts', '2020-01-01T00:00:00.5Z')]:
         pats.append(('OBS', ('CMP', PA, '=', False, lit))); pats.append(('OBS', ('CMP', PA, '!=', False, lit)))
         if lit[0] in ('bin', 'hex', 'str'): pats.append(('OBS', ('CMP', PA, 'IN', False, ('set', (lit, (lit[0], {'bin': 'YWJj', 'hex': 'ab', 'str': 'x'}[lit[0]]))))))
+    # START / STOP intervals of every width, written with and without fraction digits (an interval may be shorter than a second; '.' sorts before 'Z' as text; canonical spellings only: the printer drops trailing zero digits, which keeps the instant)
+    a0 = ('OBS', ('CMP', PA, '=', False, ('num', 1)))
+    for st, sp in (('2016-06-01T00:00:00Z', '2016-06-01T00:00:00.5Z'), ('2016-06-01T00:00:00Z', '2016-06-01T00:00:00.001Z'), ('2016-06-01T00:00:00Z', '2016-06-01T00:00:00.000001Z'),
+                   ('2016-06-01T00:00:00.5Z', '2016-06-01T00:00:00.50001Z'), ('2016-06-01T00:00:00.9Z', '2016-06-01T00:00:01Z'), ('2016-06-01T23:59:59.999Z', '2016-06-02T00:00:00Z'),
+                   ('2016-06-01T00:00:00Z', '2016-06-01T00:00:01Z'), ('2015-12-31T23:59:59.5Z', '2016-01-01T00:00:00Z'), ('0999-01-01T00:00:00Z', '9999-12-31T23:59:59.999999Z')):
+        q = ('STARTSTOP', f"t'{st}'", f"t'{sp}'")
+        pats.append(('QUAL', a0, q)); pats.append(('QUAL', ('PAREN', ('OAND', (a0, ('OBS', ('CMP', PA, '=', False, ('num', 2)))))), q))
     from stix2patterns.validator import run_validator as _validate
     def grammar_accepts(text, ver):
         try: return not _validate(text, stix_version=ver)
